@@ -200,7 +200,9 @@ Inductive op :=
 | ExtDelete (name : Z)           (* somebody unlinks <path>.name (0: the live log) *)
 | ExtReplace (name : Z) (c : bytes)    (* somebody puts a new file there *)
 | ReopenFails                    (* reopen() while open() fails (log directory missing): close(); open raises *)
-| ClearFails.                    (* remove(); reopen() in the same situation: close(); ENOENT tolerated; open raises *)
+| ClearFails                     (* remove(); reopen() in the same situation: close(); ENOENT tolerated; open raises *)
+| WriteBlocked (msg : bytes).    (* a write while the rotation cannot be done: the first remove/rename of
+                                    doRollover raises something other than ENOENT (e.g. <path>.N is a directory) *)
 
 Definition ext_replace (f : fs) (name : Z) (c : bytes) : fs :=
   let ino := next f in
@@ -220,6 +222,14 @@ Definition step (st : outcome) (o : op) : outcome :=
        exception goes to the caller of reopen()/removelogs(), not out of a later emit *)
     | ReopenFails => Ok f (with_stream h None (h_append h) (h_pos h))
     | ClearFails => Ok f (with_stream h None (h_append h) (h_pos h))
+    (* a811a35: doRollover closes the stream, the rename raises before anything was moved, the
+       `finally` reopens the live log in append mode, emit() swallows the error *)
+    | WriteBlocked msg =>
+      let '(f, h) := emit_write f h msg in
+      if h_rotating h && (0 <? h_maxbytes h) &&
+         (match h_stream h with Some _ => true | None => false end) && (h_pos h >=? h_maxbytes h)
+      then let '(f, ino) := open_append f 0 in Ok f (with_stream h (Some ino) true (zlen (content f ino)))
+      else Ok f h
     end
   end.
 
